@@ -85,6 +85,7 @@ func run(d *props.Def, tier, repo, verif string, seed int, replay string) (code 
 	}()
 	// both tiers load the whole module (3-5 s with a warm build cache); tiers differ in rule breadth
 	pats := []string{"./..."}
+	pre := an.PreloadFixtures(verif + "/checker")
 	p, err := an.Load(repo, pats...)
 	if err != nil {
 		// load / type errors are failures, never passes
@@ -95,7 +96,7 @@ func run(d *props.Def, tier, repo, verif string, seed int, replay string) (code 
 	}
 	c = an.NewCheck(d.ID, tier, p)
 	c.Explain, c.NotCov = d.Explain, d.NotCov
-	c.RunControls(verif + "/checker")
+	c.RunControls(pre)
 	d.Run(c)
 	if replay != "" {
 		fmt.Printf("replay %s: property re-evaluated on the current tree; matching obligations are printed above if still violated\n", replay)
